@@ -54,6 +54,8 @@ func (r *recorder) log(c int, proc, name string, kv ...any) {
 }
 
 type live struct {
+	quietIdx  atomic.Int64
+	quiet     bool         // VERIF_NOHOOKS: no hook function and no-op callbacks, so that the harness adds no synchronisation between the server's goroutines (C18)
 	slackMs   atomic.Int64 // how late a time-out result may be (ms); 0 = 1300; scenarios that never park the writer set less
 	muted     sync.Map     // connection index -> *atomic.Int64: per-message events of a flooding connection are counted, not recorded
 	noFilter  bool         // the server runs WithHasSubcontract(false)
@@ -85,6 +87,9 @@ func msgFields(m *service.Message) []any {
 }
 
 func (e *liveEventer) OnJoinEvent(msg *service.Message, key string, err error) {
+	if e.l.quiet {
+		return
+	}
 	es := ""
 	if err != nil {
 		es = err.Error()
@@ -94,14 +99,25 @@ func (e *liveEventer) OnJoinEvent(msg *service.Message, key string, err error) {
 		e.l.readHold(e.idx, msg)
 	}
 }
-func (e *liveEventer) OnLeaveEvent(key string) { e.l.rec.log(e.idx, "R", "leave", "key", key) }
+func (e *liveEventer) OnLeaveEvent(key string) {
+	if e.l.quiet {
+		return
+	}
+	e.l.rec.log(e.idx, "R", "leave", "key", key)
+}
 func (e *liveEventer) OnNotSupportedEvent(msg *service.Message) {
+	if e.l.quiet {
+		return
+	}
 	e.l.rec.log(e.idx, "R", "unsupported", msgFields(msg)...)
 	if e.l.readHold != nil {
 		e.l.readHold(e.idx, msg)
 	}
 }
 func (e *liveEventer) OnReadExecutionEvent(msg *service.Message) {
+	if e.l.quiet {
+		return
+	}
 	if n, ok := e.l.muted.Load(e.idx); ok {
 		n.(*atomic.Int64).Add(1)
 		return
@@ -112,6 +128,9 @@ func (e *liveEventer) OnReadExecutionEvent(msg *service.Message) {
 	}
 }
 func (e *liveEventer) OnWriteExecutionEvent(msg service.Message) {
+	if e.l.quiet {
+		return
+	}
 	if n, ok := e.l.muted.Load(e.idx); ok {
 		n.(*atomic.Int64).Add(1)
 		return
@@ -291,7 +310,12 @@ func startLive(o liveOpts) *live {
 	if o.keyFunc != nil {
 		opts = append(opts, service.WithKeyFunc(o.keyFunc))
 	}
-	service.VerifSetHook(l.hook)
+	l.quiet = os.Getenv("VERIF_NOHOOKS") != ""
+	if l.quiet {
+		service.VerifSetHook(nil)
+	} else {
+		service.VerifSetHook(l.hook)
+	}
 	l.g = service.New(opts...)
 	go l.g.Run()
 	// wait until the listener accepts
@@ -299,7 +323,12 @@ func startLive(o liveOpts) *live {
 		c, err := net.DialTimeout("tcp", l.addr, 100*time.Millisecond)
 		if err == nil {
 			// this probe connection becomes connection 0; close it and wait for its teardown
-			<-l.newConn
+			if l.quiet {
+				l.quietIdx.Add(1)
+				time.Sleep(20 * time.Millisecond)
+			} else {
+				<-l.newConn
+			}
 			c.Close()
 			return l
 		}
@@ -346,10 +375,15 @@ func (l *live) dialWith(phone []byte, ver int, noRead bool) *term {
 		die("dial:", err)
 	}
 	var idx int
-	select {
-	case idx = <-l.newConn:
-	case <-time.After(5 * time.Second):
-		die("server did not start a connection for the dial")
+	if l.quiet {
+		idx = int(l.quietIdx.Add(1)) - 1 // accept order = dial order (dials are serialised); give the accept a moment
+		time.Sleep(2 * time.Millisecond)
+	} else {
+		select {
+		case idx = <-l.newConn:
+		case <-time.After(5 * time.Second):
+			die("server did not start a connection for the dial")
+		}
 	}
 	t := &term{l: l, idx: idx, conn: c.(*net.TCPConn), phone: phone, ver: ver, recvCh: make(chan []byte, 100000)}
 	t.conn.SetNoDelay(true)
